@@ -168,3 +168,31 @@ Theorem handover_once_refuted_on_unrepaired_code :
   g_relclear s = [0] /\ queue s = [].
 Proof. exact handover_once_refuted. Qed.
 Print Assumptions handover_once_refuted_on_unrepaired_code.
+
+(* C14 — solo liveness for exit_returns (both repairs applied): once an exit is pending, the loop
+   thread is ranked (see exit_returns_variant) and no other thread holds the handle's mutex, the
+   loop thread's own steps alone bring muggle_evloop_run to its return, and the thread to its
+   end, within [rank] steps.  From exit_returns_variant and loop_never_stuck. *)
+From MV Require C14.ProofsSolo.
+Theorem exit_returns_solo : forall C pre, c_fix_exit C = true -> c_fix_add C = true ->
+  let s := exec sys (step C) init pre in
+  to_exit s <> 0 -> ranked C s (thr s (c_loop C)) = true ->
+  (forall u, mtx s = Some u -> u = c_loop C) ->
+  exists k, k <= rank C s (thr s (c_loop C)) /\
+    let s' := exec sys (step C) init (pre ++ repeat (c_loop C, 0) k) in
+    thr s' (c_loop C) = Done /\ returned s' = true.
+Proof. exact C14.ProofsSolo.exit_returns_solo_all. Qed.
+Print Assumptions exit_returns_solo.
+
+(* the hypotheses of exit_returns_solo are satisfiable: the schedule that defeated the code as
+   first found, on the repaired code *)
+Theorem exit_returns_solo_witness :
+  let C := cfg_exit_before_run true in
+  let s := exec sys (step C) init sched_exit_before_run in
+  c_fix_exit C = true /\ c_fix_add C = true /\
+  to_exit s <> 0 /\ ranked C s (thr s (c_loop C)) = true /\ (forall u, mtx s = Some u -> u = c_loop C) /\
+  rank C s (thr s (c_loop C)) = 79 /\ returned s = false /\
+  let s' := exec sys (step C) init (sched_exit_before_run ++ repeat (c_loop C, 0) 14) in
+  thr s' (c_loop C) = Done /\ returned s' = true.
+Proof. exact C14.ProofsSolo.exit_returns_solo_example. Qed.
+Print Assumptions exit_returns_solo_witness.
